@@ -1,6 +1,8 @@
 package ledger
 
 import (
+	"encoding/binary"
+	"encoding/hex"
 	"fmt"
 	"math/big"
 	"sort"
@@ -29,6 +31,16 @@ const (
 type ledgerBalances struct {
 	neo map[util.Uint160]*big.Int
 	gas map[util.Uint160]*big.Int
+	// voter reward bookkeeping: the cumulative GAS-per-vote record of every candidate key (compressed, hex) and, per NEO
+	// account, the height of its last change, the key it votes for and the record value it has been paid up to
+	cum  map[string]*big.Int
+	acct map[util.Uint160]neoAcct
+}
+
+type neoAcct struct {
+	height uint32
+	voteTo string
+	paidTo *big.Int
 }
 
 func nativeID(n *Node, h util.Uint160) int32 {
@@ -49,7 +61,7 @@ func accKey(k []byte) (util.Uint160, bool) {
 
 // readBalances enumerates every NEO and GAS account from raw storage.
 func (r *run) readBalances(n *Node) (*ledgerBalances, map[string]*big.Int, *big.Int, *sim.Violation) {
-	lb := &ledgerBalances{neo: map[util.Uint160]*big.Int{}, gas: map[util.Uint160]*big.Int{}}
+	lb := &ledgerBalances{neo: map[util.Uint160]*big.Int{}, gas: map[util.Uint160]*big.Int{}, cum: map[string]*big.Int{}, acct: map[util.Uint160]neoAcct{}}
 	votesFor := map[string]*big.Int{}
 	voters := big.NewInt(0)
 	var bad *sim.Violation
@@ -68,6 +80,11 @@ func (r *run) readBalances(n *Node) (*ledgerBalances, map[string]*big.Int, *big.
 			return false
 		}
 		lb.neo[a] = new(big.Int).Set(&nb.Balance)
+		na := neoAcct{height: nb.BalanceHeight, paidTo: new(big.Int).Set(&nb.LastGasPerVote)}
+		if nb.VoteTo != nil {
+			na.voteTo = nb.VoteTo.StringCompressed()
+		}
+		lb.acct[a] = na
 		if nb.VoteTo != nil {
 			key := nb.VoteTo.StringCompressed()
 			if votesFor[key] == nil {
@@ -81,6 +98,10 @@ func (r *run) readBalances(n *Node) (*ledgerBalances, map[string]*big.Int, *big.
 	if bad != nil {
 		return nil, nil, nil, bad
 	}
+	n.BC.SeekStorage(neoID, []byte{23}, func(k, v []byte) bool { // prefixVoterRewardPerCommittee + compressed key
+		lb.cum[hex.EncodeToString(k)] = bigint.FromBytes(v)
+		return true
+	})
 	n.BC.SeekStorage(gasID, []byte{pfxAccount}, func(k, v []byte) bool {
 		full := append([]byte{pfxAccount}, k...)
 		a, ok := accKey(full)
@@ -141,6 +162,38 @@ func (r *run) conservation(n *Node, h uint32) *sim.Violation {
 			got = bigint.FromBytes(si).String()
 		}
 		return sim.Violatef("c05-gas-supply", "", "%s h=%d: GAS total supply %s != sum of balances %s", n.Name, h, got, gasSum)
+	}
+	// --- issuance: GAS comes into being at genesis and as block rewards only (committee, holder and voter shares of the
+	// GAS-per-block setting; every other mint - network fees to the primary, Oracle and Notary payments - follows a burn
+	// of at least that amount), so the supply never exceeds the initial supply plus the per-block amounts so far
+	type gpbRec struct {
+		idx uint32
+		g   *big.Int
+	}
+	var recs []gpbRec
+	bc.SeekStorage(neoID, []byte{29}, func(k, v []byte) bool { // prefixGASPerBlock; key = big-endian first block index
+		if len(k) == 4 {
+			recs = append(recs, gpbRec{binary.BigEndian.Uint32(k), bigint.FromBytes(v)})
+		}
+		return true
+	})
+	sort.Slice(recs, func(i, j int) bool { return recs[i].idx < recs[j].idx })
+	if len(recs) > 0 {
+		bound := big.NewInt(int64(bc.GetConfig().InitialGASSupply))
+		for i, rc := range recs {
+			from := max(rc.idx, 1)
+			to := h + 1
+			if i+1 < len(recs) {
+				to = min(to, recs[i+1].idx)
+			}
+			if to > from {
+				bound.Add(bound, new(big.Int).Mul(rc.g, big.NewInt(int64(to-from))))
+			}
+		}
+		if gasSum.Cmp(bound) > 0 {
+			return sim.Violatef("c05-gas-issuance", "", "%s h=%d: GAS supply %s exceeds the initial supply plus all per-block amounts up to this height, %s", n.Name, h, gasSum, bound)
+		}
+		r.out.Probes["gas_issuance_bound_checked"]++
 	}
 	// --- votes
 	seenCand := map[string]bool{}
@@ -243,6 +296,33 @@ func (r *run) conservation(n *Node, h uint32) *sim.Violation {
 			return v
 		}
 		r.out.Probes["delta_checked_blocks"]++
+		// voter rewards are paid as balance x (record of the candidate voted for, now - value the account has been paid
+		// up to): an account changed by this block (balance or vote) has been paid up to what the record of the key it
+		// votes for NOW was when the block's transactions ran, i.e. after the previous block (nothing if it has no vote)
+		var as []util.Uint160
+		for a := range lb.acct {
+			as = append(as, a)
+		}
+		sort.Slice(as, func(i, j int) bool { return as[i].Less(as[j]) })
+		for _, a := range as {
+			na := lb.acct[a]
+			if na.height != h {
+				continue
+			}
+			want := big.NewInt(0)
+			if na.voteTo != "" && prev.cum[na.voteTo] != nil {
+				want = prev.cum[na.voteTo]
+			}
+			// (a record can be dropped and begun again inside the block when its candidate unregisters: then it is 0)
+			if na.paidTo.Cmp(want) != 0 && !(na.voteTo != "" && na.paidTo.Sign() == 0) {
+				return sim.Violatef("c05-voter-reward-checkpoint", "", "%s h=%d: NEO account %s (changed in this block, votes for %q) is marked as paid up to GAS-per-vote %s, but the record of that key stood at %s when the block's transactions ran",
+					n.Name, h, a.StringLE(), na.voteTo, na.paidTo, want)
+			}
+			r.out.Probes["voter_reward_checkpoint_checked"]++
+			if na.voteTo != "" && want.Sign() > 0 {
+				r.out.Probes["voter_reward_checkpoint_checked_nonzero"]++
+			}
+		}
 	}
 	n.prevBal, n.prevBalHeight = lb, h
 	return nil
